@@ -488,7 +488,8 @@ impl Gen {
                 let rows = fr + self.rng.below(3);
                 let cols = fc + self.rng.below(3);
                 let count = 1 + self.rng.below(2);
-                let id = vec![depth, rows, cols];
+                // sometimes a batch of images
+                let id = if self.rng.chance(30, 100) { vec![1 + self.rng.below(3), depth, rows, cols] } else { vec![depth, rows, cols] };
                 let img = match self.live_where(sim, |sm, s| Self::dims_of(sm, s) == id) {
                     Some(s) if self.rng.chance(1, 2) => s,
                     _ => {
@@ -753,9 +754,9 @@ impl Gen {
                 // large enough for a second layer of 2x2 filters with stride 2 after a stride-2 first layer
                 let r = fr + 2 + self.rng.below(4);
                 let c = fc + 2 + self.rng.below(4);
-                if self.rng.chance(8, 100) {
+                if self.rng.chance(30, 100) {
                     // a batch of images
-                    vec![1 + self.rng.below(2), *depth, r, c]
+                    vec![1 + self.rng.below(3), *depth, r, c]
                 } else {
                     vec![*depth, r, c]
                 }
